@@ -402,9 +402,18 @@ def check(ctx):
 
         # ----------------------------------------------------------- C14.3
         raises = [e for e in res.of_kind("raise")]
+        # (modifications of the poses / views / timestamps; emptying a
+        # private cache of derived quantities before the test is harmless)
+        def _state_write(e):
+            if e.kind == "setitem":
+                return True
+            if e.kind in ("setattr", "delattr"):
+                n_ = e.data.get("name") or ""
+                return n_ in ALLOWED_STATE or not n_.startswith("_") or \
+                    n_.startswith("_projected")
+            return False
         first_mut = min([e.idx for e in res.events
-                         if e.kind in ("setattr", "delattr", "setitem") and
-                         e.idx >= 0] or [10 ** 9])
+                         if _state_write(e) and e.idx >= 0] or [10 ** 9])
         # the state attribute: `_projected`, or whatever attribute of the
         # object the refusing raise tests and project itself sets (the nulled
         # axis, the plane ...); its value at the normal exit decides what a
@@ -434,8 +443,7 @@ def check(ctx):
                f"TrajectoryException) before the first modification",
                key=f"C14.3:{member}:guard")
         # mutations are unreachable when already projected
-        muts_live = [e for e in res.events
-                     if e.kind in ("setattr", "delattr", "setitem")]
+        muts_live = [e for e in res.events if _state_write(e)]
         ok = all(tm.fold(e.live, after) is False for e in muts_live)
         ctx.ob("C14.3", f, ok,
                f"Plane.{member}: no modification is reachable once "
